@@ -115,6 +115,12 @@ pub fn render(spec: &LangSpec, lines: &[Line]) -> String {
     if l.ml == 2 {
       s.push_str("  ");
     }
+    if l.ml == 4 {
+      // a line no rule reports, whose node includes its line break (C preprocessor directive)
+      s.truncate(s.len() - spec.indent.len());
+      s.push_str("#define FILLER 1\n");
+      continue;
+    }
     let st: Vec<&str> = l.stmts.iter().map(|i| spec.stmts[*i]).collect();
     s.push_str(&st.join(spec.sep));
     if let Some(c) = &l.comment {
@@ -251,6 +257,7 @@ pub fn gen_lines(spec: &LangSpec, rng: &mut Rng, cap: &MlCap) -> Vec<Line> {
   let mut lines = vec![];
   for _ in 0..n {
     match rng.below(13) {
+      12 if spec.lang == "C" && rng.chance(1, 2) => lines.push(Line { ml: 4, stmts: vec![], comment: None }),
       12 => {
         // an empty line: a comment above it governs nothing
         if spec.sep != "\u{0}" {
